@@ -28,6 +28,45 @@ def export_universe(module, cfg, report=None):
     return u
 
 
+def unparse_by_tlc(patterns, report=None):
+    """Rule document trees of the patterns, computed by TLC (JasmSyntax!Unparse), as native Python objects.
+
+    Returns a list of {"body": doc, "sib": doc, "upper": doc} (the `pattern` lists)."""
+    inp = os.path.join(scratch(), "unparse.in.json")
+    out = os.path.join(scratch(), "unparse.out.json")
+    with open(inp, "w") as f:
+        json.dump({"patterns": patterns}, f)
+    st = tlc.run("Export_Docs", cfg="Export_Docs.cfg", env={"JASM_IN": inp, "JASM_OUT": out}, workers=1, heap="8g")
+    if report is not None:
+        report.add_tlc(st, "Export_Docs (JasmSyntax!Unparse)")
+    tlc.cleanup(st)
+    with open(out) as f:
+        docs = json.load(f)["docs"]
+    os.unlink(inp)
+    os.unlink(out)
+    res = []
+    for d in docs:
+        if not d["back"]:
+            raise MachineryError("JasmSyntax: Parse(Unparse(p)) # p for a universe pattern")
+        res.append({k: doc_native(d[k]) for k in ("body", "sib", "upper")})
+    return res
+
+
+def doc_native(d):
+    t = d["t"]
+    if t == "str":
+        return d["s"]
+    if t == "int":
+        return d["i"]
+    if t == "null":
+        return None
+    if t == "list":
+        return [doc_native(x) for x in d["items"]]
+    if t == "map":
+        return {p["s"]: doc_native(p["items"][0]) for p in d["items"]}
+    raise MachineryError(f"unknown Doc node {t}")
+
+
 def drive(job, tag="job"):
     """Run harness/worker.py on a job; returns the list of observations."""
     jp = os.path.join(scratch(), f"{tag}.job.json")
